@@ -39,6 +39,11 @@ def morph_fn(desc):
         return lambda x: x0 + L * np.clip(s_of(x), 0.0, None) ** par
     if law == "exp":       # (exp(b s)-1)/(exp(b)-1), b != 0
         return lambda x: x0 + L * np.expm1(par * s_of(x)) / np.expm1(par)
+    if law == "affine":    # does NOT map the interval onto itself: stretch by (1+eps) about x0 and shift by delta*L (the image is another interval)
+        eps, delta = par
+        return lambda x: np.asarray(x, dtype=float) + delta * L + eps * (np.asarray(x, dtype=float) - x0)
+    if law == "wave":      # x + b L sin(x / L): the classic stretched mesh of the test-suite; end faces move unless x0 and x0+L are multiples of pi L
+        return lambda x: np.asarray(x, dtype=float) + par * L * np.sin(np.asarray(x, dtype=float) / L)
     raise ValueError(law)
 
 
